@@ -13,6 +13,24 @@ CHECKS = {
  "C03": ("Every case is evaluated repeatedly with all maps rebuilt in permuted insertion orders and concurrently on one shared value; TLC judges equality of result bags and outcomes, unchanged arguments, independence of returned maps.",
          "8.C03", "map iteration orders reached by permuted construction x repetition (not enumerable from outside the runtime); concurrency sampled by the Go scheduler",
          "TLC trace judge (Pure) over repeated/permuted/concurrent evaluations of the real matcher"),
+ "C04": ("Machine.tla defines StepOutcomes, the relation of allowed results of one step (action, error routing, ordered branches, guards, @var targets), over an action language rendered as ECMAScript and as native Go actions; every recorded result of the real Spec.Step (and every stride of recorded walks) must be a member, as judged by TLC.",
+         "8.C04", "seeded generation over node shapes / error settings / states / messages (not yet a TLC-enumerated exhaustive universe); branch patterns restricted to the fragment where the reference matcher is exact; nil-bindings states judged for totality only",
+         "TLA+ step relation (Machine.tla) + TLC trace judge over recorded Spec.Step/Walk calls"),
+ "C05": ("Recorded walks of the real Spec.Walk are judged by TLC: ordered exactly-once consumption (prefix), step bound, exact remainder on limit/breakpoint, stride continuity, quiescence and no discard at a consuming node on Done, truthful breakpoints, every stride in the step relation, and equality of final state and emissions across every split into consecutive batches.",
+         "8.C05", "seeded specs with 2-3 nodes, <=4 messages, every split; split equivalence claimed for deterministic walks not stopped by limit/breakpoint",
+         "TLA+ walk predicates over Machine.tla + TLC trace judge over recorded walks in every split"),
+ "C06": ("Deep snapshots of every argument before/after each Step/Walk, map identity of returned bindings, and a second identical call on fresh copies are recorded; TLC judges Frame and Repeatable (where the step relation is a singleton).",
+         "8.C06", "generation biased to failing actions, rejecting guards, error node, limit; spec snapshot covers what the engine could write",
+         "TLC trace judge (frame conditions / repeatability) over recorded Step/Walk calls"),
+ "C07": ("Panic trap and watchdog around every Step/Walk over combinations of failing behaviours (throw, timeout, null/scalar return, unserialisable emission, native error with/without partial execution), permanent bindings, nil bindings, unknown nodes, nil control; TLC requires outcome 'returned' and, where the model says a failure occurred, a result inside the step relation (error returned or error-node transition carrying error text, lastNode, lastBindings).",
+         "8.C07", "document loading/compiling totality (null nodes, unknown interpreters, YAML) is covered by the C13 loader check when built; hang = no return within 8 s",
+         "TLC trace judge (outcome returned + failure surfaced per Machine.tla) over generated failure combinations"),
+ "C08": ("Op-lists that emit and then fail at every position (throw, timeout, bad return, unserialisable emission), as actions and guards, at every position of walks: the recorded Stride.Emitted / Walked.DoEmitted must equal the model's emission sequence (nothing from failed actions or from guards, order kept).",
+         "8.C08", "crew-level reporting of emissions is covered by the C14 check when built; native partial executions are the named deviation NativePartial (outside the quantifier)",
+         "TLA+ action-language semantics (Actions.tla: atomic emission) + TLC trace judge"),
+ "C18": ("Actions and guards (native and ECMAScript) that delete, overwrite, replace wholesale, return null, fail or reject, over states with permanent and ordinary bindings: TLC checks PermanentKept on every recorded result and that no call crashed.",
+         "8.C18", "seeded generation biased to permanent bindings; permanent names classified by the encoder",
+         "TLA+ Restore/PermanentKept (Actions.tla) + TLC trace judge over recorded steps"),
 }
 def main():
     checks = []
